@@ -7,7 +7,7 @@ CONSTANTS
   Serial = {FALSE, TRUE}
   Trashing = {TRUE}
   WKinds = {"put", "touch"}
-  TKinds = {"delete", "list_eq", "list_stale"}
+  TKinds = {"delete", "list_eq"}
   XKinds = {"none"}
   MaxActors = 2
   PreSet = {"none", "intact_old", "intact_young", "corrupt_old"}
@@ -15,6 +15,9 @@ CONSTANTS
   ROSets = {{}, {2}}
   TickSizes = {1}
   MaxTicks = 1
+  Filter = "none"
+  NoLockSet = {FALSE}
+  TickInList = TRUE
   POR = FALSE
   MaxHist = 0
 VIEW view
